@@ -1274,6 +1274,8 @@ def next_common(I, state, frame, bi, t, args, span):
     for hk in [hk for hk in none_state.heap
                if hk[0] == "job" and isinstance(hk[1], tuple) and hk[1][:3] == ("b", frame.fid, bi)]:
         none_state.heap[hk] = DEAD
+    if isinstance(none_state.token, tuple) and none_state.token[:3] == ("stepped", frame.fid, bi):
+        none_state.token = None          # the peeled loop is left: its paths are joined with the rest again
     res.append((adt(OPTION, {0: ()}), none_state))
     if it[0] == "iter" and it[1] and tmpl_nonempty(it[1]) and a[0] == "ref" and a[1][0] == "local":
         # first step of an iterator known to be non-empty: it yields; the iterator is stepped (no longer fresh)
@@ -1282,6 +1284,9 @@ def next_common(I, state, frame, bi, t, args, span):
         cur = I.load_root(st0, a[1])
         stepped = ("iter", tmpl_stepped(it[1]))
         I.store_root(st0, a[1], av_set(cur, a[2], stepped, I.uni) if a[2] else stepped)
+        if st0.token is None:
+            # loop peeling: what happens from the first iteration on is kept apart from the state in which the loop was entered
+            st0.token = ("stepped", frame.fid, bi)
         for (e, st) in instantiate(I, st0, frame, bi, stepped[1], span):
             res.append((some(e), st))
         return res
